@@ -199,6 +199,12 @@ def cases(c):
         if i % 6 == 1 and not cx and not cy:
             out[-1]['variant'] = (gen.NARROW + ('bool',))[(i // 6) % (len(gen.NARROW) + 1)]      # wav / ADC samples in a narrow integer type, or 0/1 flags
         gen.layout_variant(out[-1], i)
+    # long records (both back ends switch algorithms with the length in some implementations)
+    for i in range(24 if c.tier == 'quick' else 2400):
+        N = int(rng.integers(257, 700))
+        out.append({'fn': gen.pick(rng, ['xcorr', 'xcorr', 'CORRELATION']), 'N': N, 'M': gen.pick(rng, [None, None, N, N - 40]),
+                    'cx': int(i % 3 != 0), 'cy': int(i % 3 != 0), 'kind': gen.pick(rng, ['noise', 'tones', 'ar']),
+                    'norm': gen.pick(rng, NORMS), 'maxlags': int(gen.pick(rng, [0, 3, 12, 40])), 'list': False, 'i': i, 'long': True})
     # data matrices
     for N in range(2, (10 if c.tier == 'quick' else 20)):
         for m in range(1, N):
